@@ -805,6 +805,8 @@ func (em *emitter) emitSelector(v *ast.Selector, reg int8, dstType reflect.Type)
 	expr := v.Expr
 	if op, ok := expr.(*ast.UnaryOperator); ok && op.Op == ast.OperatorPointer && em.isStructIndirection(expr) {
 		expr = op.Expr
+	} else if ptr, ok := em.addressOfNonLocal(expr); ok {
+		expr = ptr
 	}
 	typ := em.typ(expr)
 	em.operandDepth++
@@ -1017,6 +1019,8 @@ func (em *emitter) emitUnaryOp(expr *ast.UnaryOperator, reg int8, regType reflec
 			expr := operand.Expr
 			if op, ok := expr.(*ast.UnaryOperator); ok && op.Op == ast.OperatorPointer && em.isStructIndirection(expr) {
 				expr = op.Expr
+			} else if ptr, ok := em.addressOfNonLocal(expr); ok {
+				expr = ptr
 			}
 			operandExprType := em.typ(expr)
 			em.operandDepth++
